@@ -513,6 +513,32 @@ pub fn count_sweep_strategies(_u: &Value) -> Vec<Strat> {
     vec![Strat::NoSd, Strat::Top, Strat::All]
 }
 
+/// Two different objects whose locations are *spelled* the same way when paths are written as text
+/// (a member named "a.a" next to a -> a; "a[0]" next to element 0 of a), both with hidden content.
+pub fn path_collision_trees() -> Vec<Value> {
+    let base = |m: Value| {
+        let mut o = Map::new();
+        o.insert("iss".into(), json!(gen::ISS));
+        for (k, v) in m.as_object().unwrap() {
+            o.insert(k.clone(), v.clone());
+        }
+        o.insert("exp".into(), json!(gen::EXP));
+        Value::Object(o)
+    };
+    vec![
+        base(json!({"a": {"a": {"x": 1}}, "a.a": {"x": 2}})),
+        base(json!({"a.a": {"x": 2}, "a": {"a": {"x": 1}}})),
+        base(json!({"a": [{"x": 1}], "a[0]": {"x": 2}})),
+        base(json!({"a[0]": {"x": 2}, "a": [{"x": 1}]})),
+        base(json!({"a": {"a": {"x": 1, "y": 2}}, "a.a": {"y": 3}})),
+        base(json!({"a": {"b": [{"x": 1}]}, "a.b[0]": {"x": 2}})),
+        base(json!({"o": {"a": {"a": {"x": 1}}, "a.a": {"x": 2}}})),
+        base(json!({"a": [[{"x": 1}]], "a[0][0]": {"x": 2}, "a[0]": [{"x": 3}]})),
+        base(json!({"a": {"": {"x": 1}}, "a.": {"x": 2}})),
+        base(json!({"": {"a": {"x": 1}}, ".a": {"x": 2}, "$": {"x": 3}, "$.a": {"x": 4}})),
+    ]
+}
+
 /// Single nested path of depth k; bit i of `pattern` says whether level i is an array (1) or object (0).
 pub fn chain(k: usize, pattern: u64) -> Value {
     let mut v = json!(7);
